@@ -488,10 +488,6 @@ class ResNetwork(GeoNetwork):
         # np.dot treats complex numbers wrongly and computes the
         # dot product of the real and the imag part seperately
         # which in our case is exactly what we want
-        if self.flagComplex:
-            adj = np.array(adj, dtype=complex)
-            adj.imag = adj.real
-
         # dot product of adjacency and degree
         # normalised by the row sum (admittive degree)
         return np.dot(adj, ad) / ad
